@@ -20,7 +20,7 @@ TRUSTED = ["get_kernel_type's three regular expressions are modelled by prefix/i
 
 
 def gen(rng, tier, no, wide=False):
-    return C.gen_with(rng, C.every_rank_has_device)
+    return C.gen_with(rng, C.every_rank_has_device, **({"stream_zero": True} if rng.random() < 0.15 else {}))
 
 
 def wf(case) -> bool:
